@@ -56,6 +56,7 @@ var targets = []*target{
 	{name: "(*L).Addmf", method: "Addmf", fam: "L", fn: (*L).Addmf, mv: func() interface{} { return (&L{N: 1}).Addmf }, call: func() int { return (&L{N: 1}).Addmf(probeArg) }},
 	{name: "(*T).M7", method: "M7", fam: "S", fn: (*sub.T).M7, mv: func() interface{} { return (&sub.T{A: 1}).M7 }, call: func() int { return (&sub.T{A: 1}).M7(probeArg) }},
 	{name: "G5", fn: G5int64, gen: true, fam: "G", call: func() int { return int(CallG5b(probeArg)) }},
+	{name: "u4", fn: sub.U4, fam: "P", call: func() int { return sub.CallU4(probeArg) }},
 }
 
 type neighbour struct {
@@ -67,7 +68,6 @@ var neighbours = []*neighbour{
 	{call: func() int { return N0(probeArg) }},
 	{call: func() int { return N1(probeArg) }},
 	{call: func() int { return helper(probeArg, 1) }},
-	{call: func() int { return sub.CallU4(probeArg) }}, // the namesake of u4 in the second package
 }
 
 var cbF = []interface{}{K0, K1, K2, K3}
@@ -345,6 +345,8 @@ func (h *hist) exported(b *mocker.Builder, via string, t *target) mocker.Exporte
 		return b.Func(methodValue(t))
 	case "x":
 		return b.ExportStruct("*T").Method(t.method).As(t.fn)
+	case "p":
+		return b.Pkg(sub.PkgPath).ExportFunc(t.name).As(t.fn)
 	}
 	panic("bad-op")
 }
@@ -359,6 +361,8 @@ func (h *hist) unexported(b *mocker.Builder, via string, t *target) mocker.UnExp
 		return h.structM(b).ExportMethod(t.method)
 	case "x":
 		return b.ExportStruct("*T").Method(t.method)
+	case "p":
+		return b.Pkg(sub.PkgPath).ExportFunc(t.name)
 	}
 	panic("bad-op")
 }
@@ -443,7 +447,7 @@ func (h *hist) step(toks []string) {
 		panic("bad-op")
 	}
 	via, t := toks[2], targets[ti]
-	if !strings.Contains("femuvx", via) || len(via) != 1 {
+	if !strings.Contains("femuvxp", via) || len(via) != 1 || (via == "p") != (t.fam == "P") {
 		panic("bad-op")
 	}
 	if toks[0] == "w" && ((t.method != "" && via != "m") || t.gen) { // generic shape bodies take a dictionary first: argument matching on them is C01's subject
@@ -470,7 +474,7 @@ func (h *hist) step(toks []string) {
 			panic("bad-op")
 		}
 		p := placeholders[pi]
-		if p.meth != (t.fam == "T") || (t.fam != "" && t.fam != "T") {
+		if p.meth != (t.fam == "T") || (t.fam != "" && t.fam != "T" && t.fam != "P") {
 			panic("bad-op")
 		}
 		origin = p.ptr
@@ -480,7 +484,7 @@ func (h *hist) step(toks []string) {
 	case "k":
 		hd := &handle{}
 		switch via {
-		case "e", "u", "x":
+		case "e", "u", "x", "p":
 			hd.un = h.unexported(b, via, t)
 		default:
 			hd.exp = h.exported(b, via, t)
@@ -528,7 +532,7 @@ func (h *hist) step(toks []string) {
 				m = m.Origin(origin)
 			}
 			m.Apply(cb)
-		case "e", "u", "x":
+		case "e", "u", "x", "p":
 			m := h.unexported(b, via, t)
 			if origin != nil {
 				m = m.Origin(origin)
@@ -554,7 +558,7 @@ func (h *hist) step(toks []string) {
 		switch via {
 		case "f", "m", "v":
 			h.exported(b, via, t).Cancel()
-		case "e", "u", "x":
+		case "e", "u", "x", "p":
 			h.unexported(b, via, t).Cancel()
 		default:
 			panic("bad-op")
@@ -586,6 +590,8 @@ func errClass(msg string) string {
 		return "too-small"
 	case strings.Contains(msg, "already patched"):
 		return "already-patched"
+	case strings.Contains(msg, "not found") || strings.Contains(msg, "unknown method"):
+		return "symbol-not-found"
 	case strings.Contains(msg, "func signature mismatch"):
 		return "rejected"
 	case strings.HasPrefix(msg, "proxy ") || strings.HasPrefix(msg, "address overflow"):
@@ -754,7 +760,7 @@ func TestVerifC02Describe(t *testing.T) {
 	for _, tg := range targets {
 		row := ""
 		for _, p := range placeholders {
-			if p.meth != (tg.fam == "T") || tg.fam == "L" || tg.fam == "S" || tg.fam == "G" {
+			if p.meth != (tg.fam == "T") || tg.fam == "L" || tg.fam == "S" || tg.fam == "G" || tg.fam == "P" {
 				row += "-"
 				continue
 			}
